@@ -426,8 +426,16 @@ public:
                 if (applymask && !mask[src_y][src_x])
                     continue;
                 auto scaled_px = src_it[src_x];
+                // divide signed integral channels in a signed type: mixing them with the unsigned
+                // bin_width converts negative values to huge unsigned ones (-2 / 3 gave bin 84)
+                using divisor_t = typename std::conditional
+                <
+                    std::is_integral<channel_t>::value && std::is_signed<channel_t>::value,
+                    std::ptrdiff_t,
+                    std::size_t
+                >::type;
                 static_for_each(scaled_px, [&](channel_t& ch) {
-                    ch = ch / bin_width;
+                    ch = static_cast<channel_t>(ch / static_cast<divisor_t>(bin_width));
                 });
                 auto key = key_from_pixel<Dimensions...>(scaled_px);
                 if (!setlimits ||
